@@ -77,7 +77,7 @@ func runWith(e *eval.Expr, disc string, call func() M) (M, []interface{}) {
 
 func famEvents() {
 	r := rand.New(rand.NewSource(*fSeed))
-	gc := GenCfg{Custom: true, Alias: true, MaxKids: 4, Lists: true, Strings: true, Consts: true, Failing: true, Boom: true, ConstBias: 35}
+	gc := GenCfg{Custom: true, Alias: true, MaxKids: 4, Lists: true, Strings: true, OddStrings: true, Consts: true, Failing: true, Boom: true, ConstBias: 35}
 	g := &gen{r: r, c: gc}
 	var trees []*Tree
 	if *fCases != "" {
